@@ -181,6 +181,12 @@ func (vc *VC) call(fr *Frame, st *State, instr *ssa.Call, c *ssa.CallCommon) {
 		return
 	}
 	key := vc.eng.funcKey(fn)
+	if con := vc.eng.contractsByKey[key]; con != nil && con.Flags["panics"] != "" {
+		// an (external) callee that may panic on some inputs: the call has to sit below an installed recover()
+		if vc.safety {
+			vc.addObl(fr, st, "panic", "call:"+fn.Name(), False, nil, pos)
+		}
+	}
 	if con := vc.eng.contractsByKey[key]; con != nil && con.Flags["inline"] == "" {
 		if con.Iterates != "" && vc.iterateCallback(fr, st, instr, c, con, sig, pos) {
 			return
